@@ -18,7 +18,8 @@ def add(pid, category, technique, text, note, ref):
 add("C16", "exploration", "runtime contracts around typed-integer construction checked against plain int arithmetic and the pinned value sets",
     "Every clause of the property is evaluated on the real classes for all 102 primitive types: exhaustively for 8-bit "
     "(and, thorough, 16-bit) types, at every allowed-interval boundary and seeded samples for wider types; operators in both "
-    "operand orders. Held on what was enumerated; wider types are sampled.",
+    "operand orders; families of types sharing a base enumeration are also checked back to back in one process. Held on what was "
+    "enumerated; wider types are sampled.",
     "Trusted: CPython int semantics; pinned widths/sets/names.", "DESIGN.md 4/C16")
 add("C17", "exploration", "bit-arithmetic oracle over live masks, accessors and printed rows (masks exhaustive)",
     "Masks of all 12 attribute types are checked exhaustively (disjoint, covering, equal to the pinned fields); accessors and "
@@ -68,9 +69,10 @@ add("C07", "fault_enumeration", "pairwise comparison of the strict-mode and warn
     "No model needed; cases in which both modes fail with the same internal error are left to C06/C08.", "DESIGN.md 4/C07")
 
 add("C08", "fault_enumeration", "model-free tiling monitor over the warn-mode boundary trace (byte accounting, region ends, surplus) + allowed-abort check + lenient reference for value-only cases; constraint shadow names the failure mechanism",
-    "Warn-mode decodes of every fault class (size, value, truncation, suffix, small-alphabet exhaustive, mutations, streams with a "
-    "malformed message in the middle) are checked by rules T1-T7 and M1/M3; each violation is keyed by the first bookkeeping fault "
-    "seen by the hooked constraint state.",
+    "Warn-mode decodes of every fault class (size, nested pairs of size faults with a trailer, value, truncation, suffix, "
+    "small-alphabet exhaustive, mutations, random / mis-typed inputs, streams with a malformed message or an abandoned command in "
+    "the middle) are checked by rules T1-T7 and M1/M3; each violation is keyed by the first bookkeeping fault seen by the hooked "
+    "constraint state.",
     "Size fields are recognised from the declared type of the parent event. Known finding D10 (assertion on the encryption flag).", "DESIGN.md 4/C08")
 
 add("C09", "exploration", "differential on schedules: stream decode vs per-message decodes (boundaries and pairing from the reference), plus events_to_objs pairing",
@@ -85,8 +87,9 @@ add("C11", "exploration", "round-trip identities between decoder object, events_
     "All structure types (incl. empty structured TPM2Bs, every payload-less union arm), all codes x directions x configurations, corpus.",
     "Equality is the library's own == plus identity of declared types and value classes.", "DESIGN.md 4/C11")
 add("C12", "exploration", "history checker: every completed decode compared with the first decode of the same arguments under sequential, step-wise interleaved and threaded schedules",
-    "Pools with encrypted parameter areas of different commands; seeded schedulers over live generators; 8 threads with 1us switch "
-    "interval; distinct schedules are counted by hash.",
+    "Pools with encrypted parameter areas of different commands, stand-alone structures (whole / truncated / warn mode) and "
+    "value-faulted variants; seeded schedulers over live generators; 8 threads with 1us switch interval and a barrier-synchronised "
+    "first-use race; sampled items are also compared with the same decode in a fresh interpreter; distinct schedules counted by hash.",
     "No shared-memory concurrency exists in the code; schedules are interleavings of independent generators.", "DESIGN.md 4/C12")
 add("C14", "exploration", "row model computed from recorded events compared line by line with the pretty printer and the events printer",
     "Event streams of well-formed and malformed inputs in both modes; rows, order, byte buffers, bit rows, warnings, indentation "
